@@ -134,3 +134,12 @@ package client
 //@   ensures-local status == 404 && readOK ==> result1 == nil && len(result0) == 0
 //@   ensures-local status != 0 && status != 200 && status != 404 ==> result1 != nil
 //@   ensures-local count("call:Do") <= 1
+
+// The constructor yields a client whose store API is ready for use (an API given by the caller, or the HTTP
+// one with a client and both URLs).
+//@ func NewDHashClient
+//@   property C12
+//@   ensures result1 == nil ==> result0 != nil && result0.dhstoreAPI != nil
+//@   ensures-local result1 == nil && opts.dhstoreAPI == nil ==> typeis(result0.dhstoreAPI, "*client.dhstoreHTTP") && as(result0.dhstoreAPI, "*client.dhstoreHTTP").dhFindURL != nil && as(result0.dhstoreAPI, "*client.dhstoreHTTP").dhMetadataURL != nil && as(result0.dhstoreAPI, "*client.dhstoreHTTP").c == opts.httpClient
+//@   ensures-local result1 == nil && opts.dhstoreAPI != nil ==> result0.dhstoreAPI == opts.dhstoreAPI
+//@   ensures result1 != nil ==> result0 == nil
